@@ -38,8 +38,10 @@ def _ops(rng, reads, n):
             ops.append(['write_ret', rng.randrange(1000), rng.randrange(1000), rng.randint(-50, 50)])
         elif r < 0.92:
             ops.append(['write_arg', rng.randrange(1000), rng.randrange(1000), rng.randint(-50, 50)])
-        else:
+        elif r < 0.96:
             ops.append(['rebuild'])
+        else:
+            ops.append(['reinit'])
     ops.append(['read', rng.choice(reads)])
     ops.append(['read', 'trajs'])
     return ops
@@ -57,6 +59,10 @@ def _case(rng, lumped, alpha_kind=None):
         present = sorted({v for t in trajs for v in t})
         mlabs, _ = G.alphabet(rng, k=rng.randint(1, len(present)))
         f = {a: rng.choice(mlabs) for a in present}
+        if rng.random() < 0.2 and len(present) >= 2:      # macro labels = the micro labels in another order (a permutation)
+            perm = present[:]
+            rng.shuffle(perm)
+            f = dict(zip(present, perm))
         case['macro'] = [[f[v] for v in t] for t in trajs]
     return case
 
@@ -181,6 +187,15 @@ def impl(case):
                     row[op[2] % len(row)] = op[3]
                 elif arg:
                     arg[op[2] % len(arg)] = op[3]
+        elif op[0] == 'reinit':
+            if case['lumped']:
+                # the constructor called again with the existing object and OTHER micro trajectories hands back that object, unchanged
+                other = [np.array([int(v) + 1000 for v in t]) for t in case['trajs']]
+                try:
+                    again = mh.LumpedStateTraj(obj, other)
+                    reads.append(['reinit', {'t': 'bool', 'v': bool(again is obj)}])
+                except Exception as exc:  # noqa
+                    reads.append(['reinit', {'t': 'other', 'v': type(exc).__name__}])
         elif op[0] == 'rebuild':
             same = (mh.LumpedStateTraj(obj) is obj) if case['lumped'] else True
             reads.append(['rebuild', {'t': 'bool', 'v': bool(mh.StateTraj(obj) is obj and same)}])
@@ -272,7 +287,7 @@ def expected(case, answers):
          'trajs_flatten': _flat(case['macro']), 'index_trajs_flatten': _flat(mspec['index']),
          'iter': case['macro'], 'as_list': case['macro'], 'getitem': case['macro'][0],
          'nstates': len(mspec['states']), 'ntrajs': len(case['trajs']), 'nframes': len(_flat(case['trajs'])),
-         'len': len(case['trajs']), 'eq_self': True, 'rebuild': True,
+         'len': len(case['trajs']), 'eq_self': True, 'rebuild': True, 'reinit': True,
          'microstate_trajs': case['trajs'], 'microstate_index_trajs': m['microidx'],
          'microstates': m['microstates'], 'state_assignment': m['assign'],
          'microstate_trajs_flatten': _flat(case['trajs']), 'microstate_index_trajs_flatten': _flat(m['microidx']),
